@@ -28,6 +28,12 @@ func runCLI(timeout time.Duration, stdin []byte, env []string, args ...string) c
 	var so, se bytes.Buffer
 	cmd.Stdout, cmd.Stderr = &so, &se
 	cmd.Env = append(os.Environ(), env...)
+	for _, e := range env {
+		if e == "VERIF_CLEAN_ENV=1" {
+			// a scrubbed environment: nothing inherited, unusual but valid locale/timezone/home
+			cmd.Env = append([]string{"PATH=/usr/bin:/bin", "HOME=/nonexistent", "TZ=Pacific/Kiritimati", "LANG=C", "USER=nobody", "TMPDIR=" + os.TempDir()}, env...)
+		}
+	}
 	err := cmd.Run()
 	res := cliResult{Stdout: so.Bytes(), Stderr: se.Bytes(), Err: err}
 	if ctx.Err() == context.DeadlineExceeded {
